@@ -74,7 +74,7 @@ prop('C10', contracts=['c12_submit', 'c10_fsm'],
      technique=TECH + 'transition table from the real state.dot compared edge by edge; every FSM callback (start excepted) proved against the machine semantics; trigger/completion orders by the bounded stand-in',
      explanation='PROVED: (table) the edges, triggers and before/after callbacks read from the real state.dot through the real construct_attributes are exactly the documented ones; the transitioning setter only leaves `active` from `active` and raises MachineError otherwise with nothing changed; save_prior_state rejects a trigger arriving during another transition without side effects; is_pipeline_active() <=> running and at rest; reset() sets all events, clears the priority, ends active; navel_gaze/_navel_gaze, archive/_archive_done, load/done, reload/done each leave exactly one background step outstanding (transitioning != active) or end at rest, fire exactly the documented follow-up trigger, and _archive_done returns to the state archiving was entered from (running -> running at rest; updating -> updating then refresh). BOUNDED ONLY: closure over every trigger sequence with completions in every order (reaches a fixpoint of 312 configurations), FSM.start.',
      trusted_base=['transitions.Machine trigger semantics (A7)'], assumptions=[A1, A7])
-prop('C11', contracts=['c11_farm', 'c03_farm'],
+prop('C11', contracts=['c11_farm', 'c03_farm', 'c04_complete'],
      technique=TECH + 'registration, notification, gate and run-id contracts on farm.Hand/farm functions; bounded protocol histories as stand-in',
      explanation='PROVED: Hand._reg lists the connection iff it registered with the current revision, otherwise sends abort and closes; connectionLost removes it; notify/notify_all tell every idle worker to leave and empty the list when the pipeline is not active (wait message and list kept when active); something_to_do() implies the pipeline is active; _process answers a status poll with proceed iff revision matches and active; rerunid reuses the job run id or draws one larger than every stored id; farm.dispatch does nothing at all while the pipeline is not active (gate), sends no task in a call in which it triggered archiving, gives tasks only to workers listed idle, one each, and takes them off the list; _put builds the message from the unit it was made for. BOUNDED ONLY: run 0 for regressions / None target for analyses end to end, tasks that cannot be placed stay queued.',
      trusted_base=['message.send(m, hand) writes exactly one frame to that connection (proved for the receiving side under C14)', 'dawgie.db.next() > every stored run id (C08)'],
